@@ -3154,8 +3154,10 @@ namespace awkward {
               I exitdepth = bytecode_get();
               bytecodes_pointer_where()++;
               recursion_current_depth_ -= exitdepth;
+              // abandon the 'do' loops of the word being left (started at its
+              // depth or deeper), and only those
               while (do_current_depth_ != 0  &&
-                     do_abs_recursion_depth() != recursion_current_depth_) {
+                     do_abs_recursion_depth() >= recursion_current_depth_) {
                 do_current_depth_--;
               }
 
